@@ -254,6 +254,16 @@ def run(ctx: Ctx) -> int:
     known = ctx.all_known()
     n = ctx.pick(40, 500)
     specs = []
+    # many cheap columns whose labels end in digits: the storage names minted from label + running number must stay apart
+    # ('x1' + '2' and 'x' + '12' are both '_x12'); several offsets, because the running number depends on what was minted before
+    for backend in sch.BACKENDS:
+        C = sch.fixed(backend)["main"]["coll"]
+        for first in range(ctx.pick(2, 6)):
+            for stem in ("x", "pt"):
+                labels = [f"p{i}" for i in range(first)] + [stem + "1"] + [f"c{i}" for i in range(9)] + [stem, stem + "2", "q"] + [f"d{i}" for i in range(8)] + [stem + "22"]
+                cols = [(f"(j.pt() + {i})", "scalar", None) for i in range(len(labels))]
+                q = f"ds.SelectMany(lambda e: e.{C}('A')).Select(lambda j: {{" + ", ".join(f"{l!r}: {c[0]}" for l, c in zip(labels, cols)) + "})"
+                specs.append({"backend": backend, "query": q, "names": labels, "tree": f"{PREFIX[backend]}_tree", "cols": cols, "form": "dict_digit_labels", "rows": "object", "odd_names": False})
     for backend in sch.BACKENDS:
         k = 0
         i = 0
